@@ -46,6 +46,11 @@ def L2_container(ctx, fi, an, total_text, rule='returned-normalised-to-total'):
         if not stores:
             continue
         for stmt, cls, total in stores.values():
+            # `C[k] = C[k] + x` / `C[k] = C[k] - x`: a log-space update of an element written out of place (the same thing as `+=`),
+            # not the construction of a returned table
+            if isinstance(stmt, ast.Assign) and len(stmt.targets) == 1 and isinstance(stmt.value, ast.BinOp) and \
+                    isinstance(stmt.value.op, (ast.Add, ast.Sub)) and U(stmt.value.left) == U(stmt.targets[0]):
+                continue
             n += 1
             ok = cls == TOTALNORM and total == total_text
             ctx.ob(rule, fi, stmt, ok,
